@@ -65,6 +65,12 @@ htp_status_t htp_process_request_header_generic(htp_connp_t *connp, unsigned cha
     fprint_bstr(stderr, "Header value", h->value);
     #endif
 
+    // Was this header assembled from folded lines?
+    if (connp->in_header_folded) {
+        h->flags |= HTP_FIELD_FOLDED;
+        connp->in_header_folded = 0;
+    }
+
     // Do we already have a header with the same name?
     htp_header_t *h_existing = htp_table_get(connp->in_tx->request_headers, h->name);
     if (h_existing != NULL) {
